@@ -314,7 +314,7 @@ func ExecConformance(c *Check, prop string, bins map[string]string, vs []Variant
 		if m.Mutations && i%4 == 3 {
 			kind = "mutation"
 		}
-		op := GenOp(schema, r, GenOpts{Depth: 1 + r.Intn(3), MaxFields: 2 + r.Intn(4), Skip: true, Frags: true, Kind: kind, ArgFaults: m.ArgFaults,
+		op := GenOp(schema, r, GenOpts{Depth: 1 + r.Intn(3), MaxFields: 2 + r.Intn(4), Skip: true, Frags: true, Kind: kind, ArgFaults: m.ArgFaults, QDirs: true,
 			Defer: m.Defer, Avoid: []string{"withArgs", "argd", "arg", "mat"}})
 		q := op.Render()
 		base = append(base, &Scenario{ID: fmt.Sprintf("%s-op%d", prop, i), Op: op, Query: q, Vars: op.Vars, Variant: vs[0].ID()})
